@@ -12,7 +12,7 @@ TRUSTED = []
 FLOOR = {'quick': 300, 'thorough': 3000}
 BUDGET = {'quick': 90, 'thorough': 1200}
 N = {'quick': 1600, 'thorough': 20000}
-FAMILIES = [('chain', 10), ('indep', 30), ('d4', 38), ('multiex', 55), ('conjcons', 72)]
+FAMILIES = [('chain', 8), ('indep', 22), ('d4', 29), ('multiex', 47), ('conjcons', 77)]
 selftest = opcommon.selftest_birds
 
 
